@@ -60,7 +60,7 @@ def _gen(rng, n_ops):
         elif x < 0.92:
             ops.append({"ev": "get", "off": rng.choice([0, -100000, 1500, 2500, 3600000, 60000])})
         else:
-            ops.append({"ev": "get_unlocked"})
+            ops.append({"ev": "get_unlocked", "off": rng.choice([0, 0, 2000, 59000, 61000, 120000, 86400000, -100000])})
             ops.append({"ev": "should_refresh", "off": rng.choice([0, -100, 1500, 1990, 1995, 2500, 60000, -60000]),
                         "leeway": rng.choice([-1, -1, 0, 1, 1000, 2000, 100000])})
     return ops
@@ -80,7 +80,8 @@ def scripted(tier="quick"):
           {"ev": "observe", "f": 1}, {"ev": "get_unlocked"}]
     # a file whose modification time lies in the future: only the change-time is evidence
     s3 = [{"ev": "create", "f": 1, "d": "a"}, {"ev": "add", "f": 1}, {"ev": "sleep", "ms": 3}, {"ev": "create", "f": 2, "d": "a"},
-          {"ev": "futuremtime", "f": 2}, {"ev": "observe", "f": 2}, {"ev": "get_unlocked"}, {"ev": "oldmtime", "f": 1},
+          {"ev": "futuremtime", "f": 2}, {"ev": "observe", "f": 2}, {"ev": "get_unlocked"}, {"ev": "sleep", "ms": 3},
+          {"ev": "get_unlocked", "off": 61000}, {"ev": "get_unlocked", "off": 86400000}, {"ev": "oldmtime", "f": 1},
           {"ev": "observe", "f": 1}, {"ev": "get", "off": 0}]
     # concurrent callers forcing refreshes: the base time never decreases for any of them
     s4 = [{"ev": "create", "f": 1, "d": "a"}, {"ev": "add", "f": 1}, {"ev": "observe", "f": 1},
